@@ -26,6 +26,10 @@ KERNELS = {
 }
 H_POW2 = [2.0 ** -20, 2.0 ** -10, 0.125, 1.0, 8.0, 2.0 ** 10, 2.0 ** 20]
 H_DEC = [1e-6, 1e-3, 0.1, 10.0, 1e3, 1e6]
+# thorough tier only
+H_POW2_DEEP = [2.0 ** -30, 2.0 ** -15, 2.0 ** -5, 0.5, 2.0, 2.0 ** 5,
+               2.0 ** 15, 2.0 ** 30]
+H_DEC_DEEP = [1e-9, 3e-5, 0.3, 0.7, 3.0, 7.0, 1e2, 1e9]
 EPS = np.finfo(float).eps
 
 
@@ -94,7 +98,7 @@ def truncated_reference(name, dim):
     return 1.0
 
 
-def check_kernel(name, dim, npiece):
+def check_kernel(name, dim, npiece, deep=False):
     import pysph.base.kernels as K
     dims, bounds, poly, mono = KERNELS[name]
     k = getattr(K, name)(dim=dim)
@@ -110,8 +114,9 @@ def check_kernel(name, dim, npiece):
 
     qs = q_lattice(rs, bounds, npiece)
     dirs = directions(dim)
-    for h in H_POW2 + H_DEC:
-        pow2 = h in H_POW2
+    hs_pow2 = H_POW2 + (H_POW2_DEEP if deep else [])
+    for h in hs_pow2 + H_DEC + (H_DEC_DEEP if deep else []):
+        pow2 = h in hs_pow2
         fac_h = k.fac / h ** dim
         S = abs(W(0.0, h))             # peak value: the rounding scale
         tolS = 256 * EPS * S
@@ -144,7 +149,8 @@ def check_kernel(name, dim, npiece):
                     add('dwdq-positive', 'dwdq=%r at q=%r h=%r' % (dw, q, h))
             prevW, prevq = w, q
             # gradient = dwdq/h * x/r in every direction, zero at r = 0
-            for u in (dirs if (h in (1.0, 1e-3, 2.0 ** 10)) else dirs[:2]):
+            for u in (dirs if (deep or h in (1.0, 1e-3, 2.0 ** 10))
+                      else dirs[:2]):
                 x = [r * u[0], r * u[1], r * u[2]]
                 rij = math.sqrt(x[0] * x[0] + x[1] * x[1] + x[2] * x[2])
                 g = [9.0, 9.0, 9.0]
@@ -175,7 +181,8 @@ def check_kernel(name, dim, npiece):
                 add('scaling', 'W(qh,h)*h^d=%r vs W(q,1)=%r q=%r h=%r' % (
                     w * h ** dim, w1, q, h))
     # derivative relations at h = 1 and two other h (finite differences)
-    for h in (1.0, 2.0 ** -10, 1e3):
+    for h in ((1.0, 2.0 ** -10, 1e3, 2.0 ** -20, 1e-6, 0.3, 7.0, 2.0 ** 20)
+              if deep else (1.0, 2.0 ** -10, 1e3)):
         fac_h = k.fac / h ** dim
         for q in qs:
             if q <= 0 or q >= rs or any(abs(q - b) < 1e-3
@@ -236,7 +243,8 @@ def check_kernel(name, dim, npiece):
                     add('discontinuity', '%s is %r exactly at q=%r (h=%r) '
                         'but %r one ulp below' % (nm, m, b, h, a))
     # normalisation at h = 1 and another h
-    for h in (1.0, 0.125):
+    for h in ((1.0, 0.125, 1e-6, 1e-3, 0.3, 7.0, 1e3, 2.0 ** 20) if deep
+              else (1.0, 0.125)):
         edges = [0.0] + list(bounds) + [rs]
         tot = 0.0
         for a, c in zip(edges[:-1], edges[1:]):
@@ -324,7 +332,7 @@ def _job(args):
         nev, probs = check_compiled(npiece)
         return nev, [('kernel:compiled:%s' % p[0], p[1], dict(kind=kind))
                      for p in probs[:3]]
-    nev, probs = check_kernel(name, dim, npiece)
+    nev, probs = check_kernel(name, dim, npiece, deep=npiece > 100)
     out = {}
     for kind_, what in probs:
         key = 'kernel:%s:%s' % (name, kind_)
@@ -336,7 +344,7 @@ def _job(args):
 
 
 def run(ctx):
-    npiece = 400 if ctx.thorough else 100
+    npiece = 1000 if ctx.thorough else 100
     jobs = [('compiled', None, None, npiece)]
     for name, (dims, bounds, poly, mono) in KERNELS.items():
         for d in dims:
@@ -366,11 +374,14 @@ def run(ctx):
     vs = [Violation(k, w, rep) for k, (w, rep) in sorted(viol.items())]
     cov = dict(evaluations=nev, distinct_nontrivial=len(jobs) - 1,
                kernel_dim_pairs=len(jobs) - 1, points_per_piece=npiece,
-               h_values=H_POW2 + H_DEC, exhaustive=True,
+               h_values=H_POW2 + H_DEC + (H_POW2_DEEP + H_DEC_DEEP
+                                          if ctx.thorough else []),
+               exhaustive=True,
                samples=[dict(kernel='CubicSpline', dim=2,
                              q=q_lattice(2.0, (1.0,), 4))],
-               rule='every kernel class x accepted dim x 13 smoothing '
-                    'lengths (2^-20..2^20 and 1e-6..1e6) x q lattice (0, '
+               rule='every kernel class x accepted dim x 13 (thorough 29) '
+                    'smoothing lengths (2^-20..2^20 and 1e-6..1e6; thorough '
+                    '2^-30..2^30, 1e-9..1e9) x q lattice (0, '
                     'every piece boundary +-1 ulp and +-2^-40, %d points per '
                     'piece, three points beyond the support) x up to 14 '
                     'directions; distinct non-trivial = (kernel, dim) pairs'
@@ -390,7 +401,8 @@ def replay(ctx, obj):
     if obj.get('kind') == 'compiled':
         nev, probs = check_compiled(100)
     elif 'npiece' in obj:
-        nev, probs = check_kernel(obj['name'], obj['dim'], obj['npiece'])
+        nev, probs = check_kernel(obj['name'], obj['dim'], obj['npiece'],
+                                  deep=obj['npiece'] > 100)
     else:
         return dict(violates=True, note='constructor accepted dim')
     return dict(violates=bool(probs), problems=probs[:5])
